@@ -5,6 +5,7 @@ import Proofs.DescendSpec
 import Proofs.Traverse
 import Proofs.Windup
 import Proofs.KnownRun
+import Proofs.HeadlinesAll
 /-! C02 — stored LRUs read back byte-identical, any stem length; locate / wind up / traverse agree in every
     reachable state; and (history level, Proofs/Known*) an LRU can be located iff it is a non-empty
     stem-prefix of an LRU named by an earlier write request or of a constructor-rule anchor
@@ -108,5 +109,19 @@ theorem C02_known_locate (cfg : Config) (dflt : Rule) (rules : List (Bytes × Ru
     included (no hypothesis on the history) -/
 theorem C02_good_always (cfg : Config) (dflt : Rule) (rules : List (Bytes × Rule)) (ops : List Op) :
     ∃ t, Good ((State.fresh cfg dflt rules []).1.run ops) t := good_run_any cfg dflt rules ops
+
+section EveryHistory
+open Traph State Pag Layout
+/-! ### every history (Proofs/Discipline, SinceClear, ReachableAll, HeadlinesAll) -/
+
+/-- EVERY HISTORY, `clear` and `reopen` included, no request assumed away: the only hypotheses are that byte strings cut into at least one stem (`OpWf`), rule anchors are whole LRUs (`rulesCanonical`, `Canon`) and the caller re-supplies on `reopen` the rules the index carries, as the API requires (`Disciplined`); `clear` acts as a reset (`sinceClear`).  -/
+theorem C02_known_all (cfg : Config) (dflt : Rule) (rules : List (Bytes × Rule)) (ops : List Op)
+    (hr : rulesCanonical rules) (hd : Disciplined (State.fresh cfg dflt rules []).1 ops) :
+    ∃ t, Good ((State.fresh cfg dflt rules []).1.run ops) t ∧
+      ∀ p, Known ((State.fresh cfg dflt rules []).1.run ops) t p ↔
+        Covered ((State.fresh cfg dflt rules []).1.namedSince (anchors rules) ops) p :=
+  Traph.C02_known_all cfg dflt rules ops hr hd
+
+end EveryHistory
 
 end Traph.Props
